@@ -662,6 +662,7 @@ func baseHooks() map[string]hookFn {
 	h["os.Getenv"] = func(i *interpreter, fr *frame, fn *ssa.Function, args []value) value { return "" }
 	h["os.LookupEnv"] = func(i *interpreter, fr *frame, fn *ssa.Function, args []value) value { return tuple{"", false} }
 	addSyncHooks(h)
+	addNetModel(h)
 	return h
 }
 
